@@ -26,6 +26,7 @@ def dispatch (line : String) : String :=
     else if cmd == "asm" then cmdAsm args
     else if cmd == "asmspec" then cmdAsmSpec args
     else if cmd == "asmfs" then cmdAsmFs args
+    else if cmd == "asmfsr" then cmdAsmFsR args
     else if cmd == "lst" then cmdLst args
     else if cmd == "lay" then cmdLay args
     else if cmd == "proggen" then cmdProgGen args
